@@ -25,8 +25,12 @@ class StepCap(Exception):
     pass
 
 
-class CrashNow(BaseException):
-    pass
+class Livelock(Exception):
+    """the SUT keeps retrying an SQL operation that keeps failing (deterministic cap instead of a
+    RecursionError whose depth depends on the interpreter's stack)"""
+
+
+LIVELOCK_CAP = 60
 
 
 class Task:
@@ -68,6 +72,7 @@ class Sim:
         self.aborting = None
         self.on_event = None         # crash trigger hook: fn(kind) called at every crash-eligible event
         self.starved = 0
+        self.sql_errors_in_a_row = 0
         self._rr_last = -1
         self._alive = 0
         self._lock = threading.Lock()
